@@ -1874,3 +1874,105 @@ Lemma space_bounds_fixed_shape eps hs h rest x e b' :
   rev hs = h :: rest -> hp_to_nd eps h x = Some e -> space_bounds_all eps hs = Some b' ->
   space_bounds eps hs (Some x) = Some (firstn (length b' - length e) b' ++ map (fun t => (t, t)) e).
 Proof. intros Hr He Hb. unfold space_bounds. rewrite Hb, Hr, He. reflexivity. Qed.
+
+(* ================= sample(size), random_config, random_configs ================= *)
+Lemma sample_all_member sl sr d : dom_wf d -> samp_hyp sl sr d -> forall rs l,
+  Forall (fun r => raw_ok d r = true) rs -> sample_all sl sr d rs = Some l ->
+  length l = length rs /\ Forall (fun v => dom_member sl d v = true) l.
+Proof.
+  intros Hwf Hh. induction rs as [|r rs IH]; intros l Hr H; simpl in H.
+  - injection H as <-. split; [reflexivity | constructor].
+  - destruct (dom_sample sl sr d r) as [v|] eqn:Ev; [|discriminate].
+    destruct (sample_all sl sr d rs) as [l'|] eqn:El; [|discriminate]. injection H as <-.
+    inversion Hr as [|? ? Hr1 Hr2]; subst. destruct (IH l' Hr2 eq_refl) as [H1 H2].
+    split; [simpl; congruence|]. constructor; [|exact H2]. eapply sample_member; eauto.
+Qed.
+(* sample(size = k), k = number of draws: the bare value exactly when k = 1, else a list of k
+   values; every value a member *)
+Lemma sample_size_member sl sr d rs res :
+  dom_wf d -> samp_hyp sl sr d -> Forall (fun r => raw_ok d r = true) rs ->
+  dom_sample_size sl sr d rs = Some res ->
+  match res with
+  | SOne v => length rs = 1%nat /\ dom_member sl d v = true
+  | SMany l => length rs <> 1%nat /\ length l = length rs /\ Forall (fun v => dom_member sl d v = true) l
+  end.
+Proof.
+  intros Hwf Hh Hr H. unfold dom_sample_size in H.
+  destruct (sample_all sl sr d rs) as [l|] eqn:El; [|discriminate].
+  destruct (sample_all_member sl sr d Hwf Hh rs l Hr El) as [H1 H2].
+  destruct l as [|v [|w l']]; injection H as <-.
+  - split; [simpl in H1; lia|]. split; [exact H1 | exact H2].
+  - split; [simpl in H1; lia|]. inversion H2; assumption.
+  - split; [simpl in H1; lia|]. split; [exact H1 | exact H2].
+Qed.
+
+Lemma Forall2_nth_error {A B} (P : A -> B -> Prop) : forall l1 l2, Forall2 P l1 l2 ->
+  forall k a b, nth_error l1 k = Some a -> nth_error l2 k = Some b -> P a b.
+Proof.
+  induction 1; intros [|k] a b Ha Hb; simpl in *; try discriminate.
+  - injection Ha as <-. injection Hb as <-. assumption.
+  - eauto.
+Qed.
+Lemma set_nth_length : forall xs i x, length (set_nth xs i x) = length xs.
+Proof. induction xs; intros [|i] x; simpl; auto. Qed.
+Lemma set_nth_same : forall xs i x, (i < length xs)%nat -> nth_error (set_nth xs i x) i = Some x.
+Proof. induction xs; intros [|i] x H; simpl in *; try lia; [reflexivity | apply IHxs; lia]. Qed.
+Lemma set_nth_other : forall xs i x k, k <> i -> nth_error (set_nth xs i x) k = nth_error xs k.
+Proof. induction xs; intros [|i] x [|k] H; simpl; try reflexivity; try lia. apply IHxs. lia. Qed.
+
+Definition sampling_ok (sl sr : scaling) (ds : list (domain * option domain)) : Prop :=
+  Forall (fun p => dom_wf (sampling_domain p) /\ samp_hyp sl sr (sampling_domain p)) ds.
+Lemma random_config_go_member sl sr : forall ds rs xs, sampling_ok sl sr ds ->
+  Forall2 (fun p r => raw_ok (sampling_domain p) r = true) ds rs ->
+  random_config_go sl sr ds rs = Some xs ->
+  Forall2 (fun p x => dom_member sl (sampling_domain p) x = true) ds xs.
+Proof.
+  induction ds as [|p ds IH]; intros rs xs Hok Hr H; destruct rs as [|r rs]; simpl in H; try discriminate.
+  - injection H as <-. constructor.
+  - destruct (dom_sample sl sr (sampling_domain p) r) as [v|] eqn:Ev; [|discriminate].
+    destruct (random_config_go sl sr ds rs) as [l|] eqn:El; [|discriminate]. injection H as <-.
+    inversion Hok as [|? ? [Hw Hh] Hok']; subst. inversion Hr as [|? ? ? ? Hr1 Hr2]; subst.
+    constructor; [eapply sample_member; eauto | eapply IH; eauto].
+Qed.
+
+(* a configuration of the right length whose values are members of the (active) domains, except
+   the fixed position, which holds value_for_last_pos *)
+Definition cfg_ok (sl : scaling) (ds : list (domain * option domain)) (fixed : option (nat * val))
+           (c : list val) : Prop :=
+  length c = length ds /\
+  forall k p x, nth_error ds k = Some p -> nth_error c k = Some x ->
+    match fixed with
+    | Some (i, fx) => if Nat.eqb k i then x = fx else dom_member sl (sampling_domain p) x = true
+    | None => dom_member sl (sampling_domain p) x = true
+    end.
+Lemma random_config_member sl sr ds fixed rs c :
+  sampling_ok sl sr ds -> Forall2 (fun p r => raw_ok (sampling_domain p) r = true) ds rs ->
+  random_config sl sr ds fixed rs = Some c -> cfg_ok sl ds fixed c.
+Proof.
+  intros Hok Hr H. unfold random_config in H.
+  destruct (random_config_go sl sr ds rs) as [xs|] eqn:E; [|discriminate]. injection H as <-.
+  pose proof (random_config_go_member sl sr ds rs xs Hok Hr E) as Hm.
+  pose proof (Forall2_length _ _ _ Hm) as Hlen.
+  unfold cfg_ok, transform_config. destruct fixed as [[i fx]|].
+  - split; [rewrite set_nth_length; congruence|]. intros k p x Hp Hx.
+    destruct (Nat.eqb k i) eqn:Ek.
+    + apply Nat.eqb_eq in Ek. subst k.
+      assert (i < length xs)%nat as Hi by (rewrite <- Hlen; apply nth_error_Some; congruence).
+      rewrite (set_nth_same xs i fx Hi) in Hx. congruence.
+    + apply Nat.eqb_neq in Ek. rewrite (set_nth_other xs i fx k Ek) in Hx.
+      exact (Forall2_nth_error _ _ _ Hm k p x Hp Hx).
+  - split; [congruence|]. intros k p x Hp Hx. exact (Forall2_nth_error _ _ _ Hm k p x Hp Hx).
+Qed.
+(* random_configs(rs, k): exactly k configurations, each as above *)
+Lemma random_configs_member sl sr ds fixed : sampling_ok sl sr ds -> forall rss cs,
+  Forall (fun rs => Forall2 (fun p r => raw_ok (sampling_domain p) r = true) ds rs) rss ->
+  random_configs sl sr ds fixed rss = Some cs ->
+  length cs = length rss /\ Forall (cfg_ok sl ds fixed) cs.
+Proof.
+  intros Hok. induction rss as [|rs rss IH]; intros cs Hr H; simpl in H.
+  - injection H as <-. split; [reflexivity | constructor].
+  - destruct (random_config sl sr ds fixed rs) as [c|] eqn:Ec; [|discriminate].
+    destruct (random_configs sl sr ds fixed rss) as [l|] eqn:El; [|discriminate]. injection H as <-.
+    inversion Hr as [|? ? Hr1 Hr2]; subst. destruct (IH l Hr2 eq_refl) as [H1 H2].
+    split; [simpl; congruence|]. constructor; [eapply random_config_member; eauto | exact H2].
+Qed.
